@@ -5,9 +5,10 @@ import os, subprocess, collections
 from concurrent.futures import ThreadPoolExecutor
 import common, lbtool, owntool
 
-C02_KINDS = ('view-corrupt', 'free-while-view-live', 'content-not-intact')
-C03_KINDS = ('double-free', 'foreign-free', 'caller-memory-freed', 'caller-memory-written', 'freed-block-in-chain', 'private-copy-in-pool-block')
+C02_KINDS = ('view-corrupt', 'free-while-view-live', 'content-not-intact', 'impl-crash')
+C03_KINDS = ('double-free', 'foreign-free', 'caller-memory-freed', 'caller-memory-written', 'freed-block-in-chain', 'private-copy-in-pool-block', 'impl-crash')
 KNOWN_TAG = 'D4-split-block'
+HARNESS_TIMEOUT = int(os.environ.get('VERIF_HARNESS_TIMEOUT', '900'))
 MODEL_VISIBLE = ('double-free', 'free-while-view-live', 'freed-block-in-chain', 'foreign-free', 'caller-memory-freed')
 
 def have_own_driver():
@@ -19,8 +20,35 @@ def read(p): return open(p).read().split('\n')[:-1]
 def run_one(binary, wd, gen_args):
     os.makedirs(wd, exist_ok=True)
     f = {n: os.path.join(wd, n) for n in ('ops', 'impl', 'own', 'model', 'spec', 'ledger')}
-    subprocess.run([binary, *gen_args, '-impl-out', f['impl'], '-poison', '-own-out', f['own']], check=True, timeout=3600)
+    # the code under test may crash the process (stack overflow, fatal error) or hang: both are findings, the last
+    # sequence on file (the harness flushes per line) is the failing input
+    crash = None
+    try:
+        p = subprocess.run([binary, *gen_args, '-impl-out', f['impl'], '-poison', '-own-out', f['own']], timeout=HARNESS_TIMEOUT,
+                           stdout=subprocess.DEVNULL, stderr=subprocess.PIPE)
+        if p.returncode != 0:
+            crash = 'harness process died (exit %d): %s' % (p.returncode, p.stderr.decode(errors='replace')[:300].replace('\n', ' | '))
+    except subprocess.TimeoutExpired:
+        crash = 'harness process hung (> %d s): the code under test does not return' % HARNESS_TIMEOUT
     ops = f['ops'] if '-ops-out' in gen_args else gen_args[gen_args.index('-replay') + 1]
+    if crash is not None:
+        for n in ('impl', 'own'):
+            if not os.path.exists(f[n]): open(f[n], 'w').close()
+        lines = read(ops)
+        n = min(len(lines), len(read(f['impl'])) + 1)       # the op that did not return is the last one
+        lines = lines[:n]
+        start = max([i for i, l in enumerate(lines) if l.startswith('seq ')] or [0])
+        # judge what completed, then add the crash as a problem of its own
+        open(ops + '.done', 'w').write('\n'.join(lines[:max(n - 1, 0)]) + '\n')
+        try:
+            res = finish_one(ops + '.done', f)
+        except Exception:
+            res = analyse([], [], [], [], [], None)
+        res['problems'].append((lines[start:], n - 1 - start, 'impl-crash', crash))
+        return res
+    return finish_one(ops, f)
+
+def finish_one(ops, f):
     with open(ops) as i, open(f['model'], 'w') as o:
         subprocess.run([common.DRIVER, 'lb'], stdin=i, stdout=o, check=True, timeout=3600)
     # the valid stream stays inside Contract (./check C01 measures ops_out_of_contract = 0 for it), so the
